@@ -60,7 +60,16 @@ func (e *Enum) GetAST() (jschema.ASTNode, error) {
 		return jschema.ASTNode{}, err
 	}
 
-	return e.buildASTNode()
+	an, err := e.buildASTNode()
+	if err != nil {
+		return jschema.ASTNode{}, err
+	}
+	// The caller owns what it gets: the children are copied, so that editing the
+	// tree cannot change what a later call returns.
+	if an.Children != nil {
+		an.Children = append([]jschema.ASTNode{}, an.Children...)
+	}
+	return an, nil
 }
 
 func (e *Enum) buildASTNode() (jschema.ASTNode, error) {
@@ -102,7 +111,11 @@ func (e *Enum) Values() ([]Value, error) {
 	if err := e.compile(); err != nil {
 		return nil, err
 	}
-	return e.values, nil
+	if e.values == nil {
+		return nil, nil
+	}
+	// A copy: the caller may reorder or overwrite what it gets.
+	return append([]Value{}, e.values...), nil
 }
 
 func (e *Enum) compile() error {
